@@ -2268,27 +2268,38 @@ func (vm *Thread) growValueStack() {
 	fpOffset := uintptr(vm.fpOffset())
 	spOffset := uintptr(vm.spOffset())
 
+	oldStackEnd := oldStackPtr + uintptr(len(vm.stack))*value.ValueSize
+	// moves an open upvalue that still points into the old stack to the same slot of the new one
+	moveUpvalue := func(upvalue *Upvalue) {
+		if upvalue.IsClosed() {
+			return
+		}
+		slotPtr := uintptr(unsafe.Pointer(upvalue.slot))
+		if slotPtr < oldStackPtr || slotPtr >= oldStackEnd {
+			// already moved (upvalues can be shared) or not living on this stack
+			return
+		}
+
+		offset := vm.stackOffsetFromTo(upvalue.slot, &vm.stack[0])
+		upvalue.slot = vm.stackAdd(&newStack[0], offset)
+	}
+
 	for i := range vm.callFrames {
 		cf := &vm.callFrames[i]
 		offset := uintptr(vm.stackOffsetFromToRaw(cf.fp, oldStackPtr))
 		cf.fp = vm.stackAddRaw(newStackPtr, offset)
 		for _, upvalue := range cf.upvalues {
-			if upvalue.IsClosed() {
-				continue
-			}
-
-			offset := vm.stackOffsetFromTo(upvalue.slot, &vm.stack[0])
-			upvalue.slot = vm.stackAdd(&newStack[0], offset)
+			moveUpvalue(upvalue)
 		}
 	}
 
 	for _, upvalue := range vm.upvalues {
-		if upvalue.IsClosed() {
-			continue
-		}
+		moveUpvalue(upvalue)
+	}
 
-		offset := vm.stackOffsetFromTo(upvalue.slot, &vm.stack[0])
-		upvalue.slot = vm.stackAdd(&newStack[0], offset)
+	// open upvalues of closures that are not being executed are reachable only from this list
+	for upvalue := vm.openUpvalueHead; upvalue != nil; upvalue = upvalue.next {
+		moveUpvalue(upvalue)
 	}
 
 	vm.fp = vm.stackAddRaw(newStackPtr, fpOffset)
